@@ -31,28 +31,28 @@ const pRoute = "(" + modPath + "/route.Route)."
 
 // declared kinds of (non-receiver) parameters, by canonical callee name.
 var paramKinds = map[string]map[int]Kind{
-	pMatcher + "Match":               {0: KName},
-	pMatcher + "PreMatch":            {0: KName},
-	pMatcher + "MatchRegexAndExpand": {0: KName},
-	pRoute + "Match":                 {0: KName},
-	pRoute + "Dispatch":              {0: KLine},
-	"(*" + modPath + "/route.baseRoute).Match":                        {0: KName},
-	"(*" + modPath + "/destination.Destination).Match":                {0: KName},
-	"(*" + modPath + "/aggregator.Aggregator).matchWithCache":          {0: KName},
-	"(*" + modPath + "/aggregator.Aggregator).AddMaybe":                {0: KFields},
-	modPath + "/validate.Ordered":                                      {0: KName},
-	"(*" + modPath + "/route.ConsistentHasher).GetDestinationIndex":    {0: KName},
-	"(" + modPath + "/rewriter.RW).Do":                                 {0: KName},
-	"(*" + modPath + "/table.Table).Dispatch":                          {0: KLine},
-	"(*" + modPath + "/table.Table).DispatchAggregate":                 {0: KLine},
-	"(" + modPath + "/input.Dispatcher).Dispatch":                      {0: KLine},
-	"(*" + modPath + "/route.SendAllMatch).Dispatch":                   {0: KLine},
-	"(*" + modPath + "/route.SendFirstMatch).Dispatch":                 {0: KLine},
-	"(*" + modPath + "/route.ConsistentHashing).Dispatch":              {0: KLine},
-	"(*" + modPath + "/route.GrafanaNet).Dispatch":                     {0: KLine},
-	"(*" + modPath + "/route.KafkaMdm).Dispatch":                       {0: KLine},
-	"(*" + modPath + "/route.PubSub).Dispatch":                         {0: KLine},
-	"(*" + modPath + "/route.CloudWatch).Dispatch":                     {0: KLine},
+	pMatcher + "Match":                                              {0: KName},
+	pMatcher + "PreMatch":                                           {0: KName},
+	pMatcher + "MatchRegexAndExpand":                                {0: KName},
+	pRoute + "Match":                                                {0: KName},
+	pRoute + "Dispatch":                                             {0: KLine},
+	"(*" + modPath + "/route.baseRoute).Match":                      {0: KName},
+	"(*" + modPath + "/destination.Destination).Match":              {0: KName},
+	"(*" + modPath + "/aggregator.Aggregator).matchWithCache":       {0: KName},
+	"(*" + modPath + "/aggregator.Aggregator).AddMaybe":             {0: KFields},
+	modPath + "/validate.Ordered":                                   {0: KName},
+	"(*" + modPath + "/route.ConsistentHasher).GetDestinationIndex": {0: KName},
+	"(" + modPath + "/rewriter.RW).Do":                              {0: KName},
+	"(*" + modPath + "/table.Table).Dispatch":                       {0: KLine},
+	"(*" + modPath + "/table.Table).DispatchAggregate":              {0: KLine},
+	"(" + modPath + "/input.Dispatcher).Dispatch":                   {0: KLine},
+	"(*" + modPath + "/route.SendAllMatch).Dispatch":                {0: KLine},
+	"(*" + modPath + "/route.SendFirstMatch).Dispatch":              {0: KLine},
+	"(*" + modPath + "/route.ConsistentHashing).Dispatch":           {0: KLine},
+	"(*" + modPath + "/route.GrafanaNet).Dispatch":                  {0: KLine},
+	"(*" + modPath + "/route.KafkaMdm).Dispatch":                    {0: KLine},
+	"(*" + modPath + "/route.PubSub).Dispatch":                      {0: KLine},
+	"(*" + modPath + "/route.CloudWatch).Dispatch":                  {0: KLine},
 }
 
 type Kinds struct {
@@ -158,6 +158,20 @@ func (k *Kinds) compute(v ssa.Value) Kind {
 			if kd, ok := m[idx]; ok {
 				return kd
 			}
+		}
+		// an undeclared parameter of a module helper (e.g. a loop body extracted into its own
+		// function): the kind every call site agrees on
+		if args, ok := k.p.paramArgs(x); ok {
+			res := KUnknown
+			for i, a := range args {
+				kd := k.Of(a)
+				if i == 0 {
+					res = kd
+				} else if kd != res {
+					return KUnknown
+				}
+			}
+			return res
 		}
 		return KUnknown
 	case *ssa.ChangeType:
